@@ -418,7 +418,9 @@ func (r *runner) start() {
 		alive[p.Name] = p.Addr
 	}
 	st := r.k.absState(r.s.Cfg, alive, uint64(snap.LastClock()), uint64(snap.LastEventClock()), uint64(snap.LastQueryClock()))
-	r.tr.emit(map[string]interface{}{"a": "started"}, map[string]interface{}{"ok": true, "st": st})
+	// off = the offset the snapshotter starts from (the file size); used by the family to place thresholds
+	r.tr.emit(map[string]interface{}{"a": "started"}, map[string]interface{}{"ok": true, "st": st,
+		"off": int(serf.VerifSnapshotState(snap).Offset)})
 }
 
 // stopQuietly ends the current process image without letting it touch what the next session sees.
@@ -532,7 +534,8 @@ func (r *runner) stripPend(m map[string]interface{}) map[string]interface{} { de
 
 // input performs one input of the stream loop; crashAt >= 0: the process "dies" after the real operation
 // with that session index (the rest of the input happens in a process image nobody will see).
-func (r *runner) input(st h.Step, crashAt int) (crashed bool, k int) {
+// crashSel ("op:file", e.g. "close:tmp") selects the first operation of that kind of this input instead.
+func (r *runner) input(st h.Step, crashAt int, crashSel string) (crashed bool, k int) {
 	before := serf.VerifFS.Ops()
 	if f := st.Int("fail"); f > 0 {
 		serf.VerifFS.SetFail(before + f)
@@ -567,6 +570,15 @@ func (r *runner) input(st h.Step, crashAt int) (crashed bool, k int) {
 	after := serf.VerifFS.Ops()
 	if crashAt >= 0 && after > before {
 		k = crashAt
+		if crashSel != "" {
+			for _, l := range r.lines {
+				a, _ := l.act.(map[string]interface{})
+				if l.idx > 0 && fmt.Sprintf("%v:%v", a["op"], a["f"]) == crashSel {
+					k = l.idx
+					break
+				}
+			}
+		}
 		if k <= before {
 			k = before + 1
 		}
@@ -616,11 +628,12 @@ func (r *runner) run() {
 			if !up {
 				h.Die("schedule %d: %s while down", r.s.ID, st.A())
 			}
-			crashAt := -1
+			crashAt, crashSel := -1, ""
 			if i+1 < len(steps) && steps[i+1].A() == "crash" {
 				crashAt = steps[i+1].Int("k")
+				crashSel = steps[i+1].Str("at")
 			}
-			crashed, k := r.input(st, crashAt)
+			crashed, k := r.input(st, crashAt, crashSel)
 			if crashed {
 				r.tr.emit(map[string]interface{}{"a": "crash", "k": k}, 0)
 				im := r.images[k]
